@@ -365,12 +365,18 @@ Section S.
       + apply ok_response; exact G.
   Qed.
 
-  Lemma ok_STARTTLS : forall st arg hs, ok_step st (t_command_STARTTLS st arg hs).
+  Lemma ok_STARTTLS : forall st arg v hs, ok_step st (t_command_STARTTLS st arg v hs).
   Proof.
-    intros st arg hs. unfold t_command_STARTTLS.
+    intros st arg v hs. unfold t_command_STARTTLS.
     destruct (x_starttls (ex st)); cbn [negb]; [|apply ok_just].
     destruct (nonempty arg); [apply ok_just|].
     destruct (is_some (s_ehlo (sv st))); cbn [negb]; [|apply ok_just].
+    destruct (apply_verdict v 220) as [c|].
+    2:{ constructor; cbn; auto. intros ? ? ? []. }
+    destruct (is_close c).
+    { constructor; cbn; auto. intros ? ? ? []. }
+    destruct (c =? 220); cbn [negb].
+    2:{ constructor; cbn; auto. intros ? ? ? []. }
     destruct hs; cbn [negb].
     - constructor; cbn; auto.
       + intros _. right. repeat split; auto.
@@ -992,7 +998,8 @@ End Final.
 (* ---------- concrete sessions: witnesses and satisfiability of the hypotheses *)
 Definition bsl (l : list N) : bytes := l.
 Definition keep_env (hs : bool) : env :=
-  {| nv_vf := fun _ _ => VKeep; nv_queued := fun _ => VKeep; nv_qf := fun _ => QOk; nv_hs := hs |}.
+  {| nv_vf := fun _ _ => VKeep; nv_queued := fun _ => VKeep; nv_qf := fun _ => QOk; nv_hs := hs;
+     nv_stls := VKeep |}.
 Definition ex_cfg (imm : bool) : config :=
   {| cfg_context := true; cfg_tls_immediately := imm; cfg_tls_imm_ok := true; cfg_auth := true;
      cfg_max_size := None |}.
@@ -1085,3 +1092,198 @@ Proof.
   - reflexivity.
   - repeat constructor; unfold byte_ok; lia.
 Qed.
+
+(* ================================================================== part 10: the EHLO identity
+   Server.ehlo_as becomes (or changes to) a name only in a step in which the EHLO/HELO handler
+   was called with that name and left the reply at 250. *)
+Local Opaque gather_params utf8_dec find_gt match_path_prefix check_size py_int get_param too_big N.eqb N.leb N.ltb b64_dec b64_enc.
+
+Definition hello_ev (nv : env) (a : bytes) (es : list tevent) : Prop :=
+  exists enc k, (k = KEhlo \/ k = KHelo) /\ In (TCall enc (EvCall k a [] (Some 250))) es /\
+                apply_verdict (nv_vf nv k a) 250 = Some 250.
+
+Definition ehlo_just (nv : env) (st : sstate) (r : sres) : Prop :=
+  forall a, s_ehlo (sv (sr_st r)) = Some a -> s_ehlo (sv st) = Some a \/ hello_ev nv a (sr_events r).
+
+Lemma ej_same : forall nv st r, s_ehlo (sv (sr_st r)) = s_ehlo (sv st) -> ehlo_just nv st r.
+Proof. intros nv st r H a Ha. left. congruence. Qed.
+
+Section EJ.
+  Variable mechs : bytes -> option mech.
+  Variable nv : env.
+
+  Lemma ej_handle : forall st l,
+    classify l <> CStarttls -> classify l <> CAuth -> classify l <> CData ->
+    ehlo_just nv st (of_res (s_encrypted (sv st)) (handle_command st (cmd_item nv l))).
+  Proof.
+    intros st l H1 H2 H3. unfold handle_command. cbn [cmd_item it_line it_v1].
+    destruct (classify l) eqn:Hc; try congruence; clear H1 H2 H3.
+    - (* EHLO *)
+      unfold command_EHLO.
+      destruct (negb (s_bannered (sv st))); [apply ej_same; reflexivity|].
+      destruct (negb (nonempty (l_arg l))); [apply ej_same; reflexivity|].
+      destruct (utf8_dec match l_arg l with Some a => a | None => [] end); [|apply ej_same; reflexivity].
+      unfold arg_bytes.
+      destruct (apply_verdict (nv_vf nv KEhlo match l_arg l with Some b => b | None => [] end) 250) as [c|] eqn:Ev;
+        [|apply ej_same; reflexivity].
+      destruct (c =? 250) eqn:Ec; [|apply ej_same; unfold of_res, mk; cbn; try rewrite Ec; reflexivity].
+      apply N.eqb_eq in Ec; subst c. intros a Ha. right. cbn in Ha.
+      change (250 =? 250) with true in Ha. cbn in Ha. inversion Ha; subst a.
+      exists (s_encrypted (sv st)), KEhlo. split; [left; reflexivity|]. split; [cbn; left; reflexivity|exact Ev].
+    - (* HELO *)
+      unfold command_HELO.
+      destruct (negb (s_bannered (sv st))); [apply ej_same; reflexivity|].
+      destruct (negb (nonempty (l_arg l))); [apply ej_same; reflexivity|].
+      destruct (utf8_dec match l_arg l with Some a => a | None => [] end); [|apply ej_same; reflexivity].
+      unfold arg_bytes.
+      destruct (apply_verdict (nv_vf nv KHelo match l_arg l with Some b => b | None => [] end) 250) as [c|] eqn:Ev;
+        [|apply ej_same; reflexivity].
+      destruct (c =? 250) eqn:Ec; [|apply ej_same; unfold of_res, mk; cbn; try rewrite Ec; reflexivity].
+      apply N.eqb_eq in Ec; subst c. intros a Ha. right. cbn in Ha.
+      change (250 =? 250) with true in Ha. cbn in Ha. inversion Ha; subst a.
+      exists (s_encrypted (sv st)), KHelo. split; [right; reflexivity|]. split; [cbn; left; reflexivity|exact Ev].
+    - apply ej_same. unfold command_MAIL. repeat (brk1; cbn); reflexivity.
+    - apply ej_same. unfold command_RCPT. repeat (brk1; cbn); reflexivity.
+    - apply ej_same. unfold command_RSET. repeat (brk1; cbn); reflexivity.
+    - apply ej_same. reflexivity.
+    - apply ej_same. unfold command_QUIT. repeat (brk1; cbn); reflexivity.
+    - apply ej_same. reflexivity.
+    - apply ej_same. reflexivity.
+  Qed.
+
+  Lemma ej_finish : forall st c, ehlo_just nv st (auth_finish nv st c).
+  Proof.
+    intros. apply ej_same. unfold auth_finish.
+    destruct (apply_verdict _ _) as [code|]; cbn; [destruct (code =? 235)|]; reflexivity.
+  Qed.
+
+  Lemma ej_turn : forall st m resps, ehlo_just nv st (auth_turn nv st m resps).
+  Proof.
+    intros. unfold auth_turn. destruct (m_attempt m resps); try (apply ej_same; reflexivity). apply ej_finish.
+  Qed.
+
+  Lemma ej_response : forall st m resps chal resp, ehlo_just nv st (auth_response nv st m resps chal resp).
+  Proof.
+    intros. unfold auth_response. destruct (beqb resp STAR); [apply ej_same; reflexivity|].
+    destruct (b64_dec resp); [apply ej_turn|apply ej_same; reflexivity].
+  Qed.
+
+  Lemma ej_AUTH : forall st arg, ehlo_just nv st (t_command_AUTH mechs nv st arg).
+  Proof.
+    intros. unfold t_command_AUTH.
+    destruct (negb (x_auth (ex st))); [apply ej_same; reflexivity|].
+    destruct (negb (is_some (s_ehlo (sv st))) || s_authed (sv st) || s_mail (sv st)); [apply ej_same; reflexivity|].
+    destruct (negb (nonempty arg)); [apply ej_same; reflexivity|].
+    destruct (parse_auth_arg (arg_bytes arg)) as [|n|n a]; [apply ej_same; reflexivity| |];
+      (destruct (mechs n) as [m|]; [|apply ej_same; reflexivity]);
+      (destruct (m_insecure m && negb (s_encrypted (sv st))); [apply ej_same; reflexivity|]).
+    - apply ej_turn.
+    - destruct (m_attempt m []); [apply ej_finish|apply ej_response|apply ej_same; reflexivity|apply ej_same; reflexivity].
+  Qed.
+
+  Lemma ej_STARTTLS : forall st arg v hs, ehlo_just nv st (t_command_STARTTLS st arg v hs).
+  Proof.
+    intros. unfold t_command_STARTTLS.
+    destruct (negb (x_starttls (ex st))); [apply ej_same; reflexivity|].
+    destruct (nonempty arg); [apply ej_same; reflexivity|].
+    destruct (negb (is_some (s_ehlo (sv st)))); [apply ej_same; reflexivity|].
+    destruct (apply_verdict v 220) as [c|]; [|apply ej_same; reflexivity].
+    destruct (is_close c); [apply ej_same; reflexivity|].
+    destruct (negb (c =? 220)); [apply ej_same; reflexivity|].
+    destruct (negb hs); [apply ej_same; reflexivity|].
+    intros a Ha. cbn in Ha. discriminate.
+  Qed.
+
+  Lemma ej_dispatch : forall st m consumed, ehlo_just nv st (t_dispatch mechs nv st m consumed).
+  Proof.
+    intros st m consumed. destruct m; cbn [t_dispatch].
+    - unfold t_exec_cmd. destruct (classify (parse_line (line_of consumed))) eqn:Hc;
+        try (apply ej_handle; rewrite Hc; discriminate).
+      + apply ej_STARTTLS.
+      + apply ej_AUTH.
+      + apply ej_same. unfold t_data_start. repeat (brk1; cbn); reflexivity.
+    - apply ej_response.
+    - apply ej_same. unfold t_data_line. destruct (is_eod (raw_of consumed)); [|reflexivity].
+      unfold of_res, get_message_data, session_HAVE_DATA. repeat (brk1; cbn); reflexivity.
+  Qed.
+
+  Lemma step_ehlo : forall ts ts' o a, t_step mechs nv ts = (ts', o) ->
+    s_ehlo (sv (t_st ts')) = Some a ->
+    s_ehlo (sv (t_st ts)) = Some a \/ hello_ev nv a (to_events o).
+  Proof.
+    intros ts ts' o a H Ha. unfold t_step in H.
+    destruct (recv_line_on (chan_of (t_enc ts)) (t_buf ts) (chunks_of (t_enc ts) (t_wire ts)))
+      as [[[consumed rest] cs]|]; inversion H; subst ts' o; clear H; cbn in *; [|left; exact Ha].
+    exact (ej_dispatch (t_st ts) (t_mode ts) consumed a Ha).
+  Qed.
+
+  Lemma loop_ehlo : forall fuel ts pre x post a,
+    t_loop mechs fuel nv ts = pre ++ x :: post ->
+    s_ehlo (sv (t_st (post_of x))) = Some a ->
+    s_ehlo (sv (t_st ts)) = Some a \/ exists y, In y (pre ++ [x]) /\ hello_ev nv a (ev_of y).
+  Proof.
+    induction fuel as [|f IH]; intros ts pre x post a H Ha; cbn in H.
+    - destruct pre; discriminate.
+    - destruct (t_step mechs nv ts) as [ts' o] eqn:E.
+      assert (H' : (ts, o, ts') :: (match to_fin o with TContinue => t_loop mechs f nv ts' | _ => [] end)
+                   = pre ++ x :: post) by (destruct (to_fin o); exact H).
+      clear H. destruct pre as [|p pre]; cbn in H'; injection H' as H1 H2.
+      + subst x. destruct (step_ehlo _ _ _ _ E Ha) as [Hb|Hb]; [left; exact Hb|].
+        right. exists (ts, o, ts'). split; [left; reflexivity|exact Hb].
+      + subst p. destruct (to_fin o); try (destruct pre; discriminate).
+        destruct (IH ts' pre x post a H2 Ha) as [Hb|(y & Hy & Hb)].
+        * destruct (step_ehlo _ _ _ _ E Hb) as [Hc|Hc]; [left; exact Hc|].
+          right. exists (ts, o, ts'). split; [left; reflexivity|exact Hc].
+        * right. exists y. split; [right; exact Hy|exact Hb].
+  Qed.
+
+  Lemma banner_ehlo : forall vb st, s_ehlo (sv (r_st (command_BANNER vb st))) = s_ehlo (sv st).
+  Proof.
+    intros. unfold command_BANNER. destruct (apply_verdict vb 220) as [c|]; cbn; [|reflexivity].
+    destruct (c =? 220); reflexivity.
+  Qed.
+
+  (* in any session: an EHLO identity after a step was given by an accepted EHLO/HELO of that
+     step or an earlier one *)
+  Theorem session_ehlo : forall fuel cfg w pre x post a,
+    t_session mechs fuel cfg nv w = pre ++ x :: post ->
+    s_ehlo (sv (t_st (post_of x))) = Some a ->
+    exists y, In y (pre ++ [x]) /\ hello_ev nv a (ev_of y).
+  Proof.
+    intros fuel cfg w pre x post a H Ha. unfold t_session in H.
+    set (imm := cfg_context cfg && cfg_tls_immediately cfg) in *.
+    destruct (imm && negb (nv_hs nv)).
+    - destruct pre as [|p [|q pre]]; inversion H; subst. cbn in Ha. discriminate.
+    - set (st1 := if imm then encrypted_state (init_state cfg) else init_state cfg) in *.
+      assert (E0 : s_ehlo (sv (r_st (command_BANNER (nv_vf nv KBanner []) st1))) = None).
+      { rewrite banner_ehlo. unfold st1. destruct imm; reflexivity. }
+      destruct (r_exc (command_BANNER (nv_vf nv KBanner []) st1));
+        (destruct pre as [|p pre]; cbn in H; injection H as H1 H2;
+         [subst x; cbn in Ha; congruence|]);
+        try (destruct pre; discriminate).
+      destruct (loop_ehlo _ _ _ _ _ _ H2 Ha) as [Hb|(y & Hy & Hb)].
+      + cbn in Hb. congruence.
+      + exists y. split; [right; exact Hy|exact Hb].
+  Qed.
+
+  (* if the application accepts no greeting at all, there is never an EHLO identity - whatever
+     the client sends, STARTTLS and immediate TLS included - and so AUTH, MAIL and STARTTLS are
+     refused throughout *)
+  Theorem rejected_greetings_no_identity : forall fuel cfg w x,
+    (forall k a, (k = KEhlo \/ k = KHelo) -> apply_verdict (nv_vf nv k a) 250 <> Some 250) ->
+    In x (t_session mechs fuel cfg nv w) -> s_ehlo (sv (t_st (post_of x))) = None.
+  Proof.
+    intros fuel cfg w x Hrej Hx. apply in_split in Hx. destruct Hx as (pre & post & Hx).
+    destruct (s_ehlo (sv (t_st (post_of x)))) as [a|] eqn:Ha; [|reflexivity].
+    destruct (session_ehlo _ _ _ _ _ _ _ Hx Ha) as (y & _ & enc & k & Hk & _ & Hv).
+    exfalso. exact (Hrej k a Hk Hv).
+  Qed.
+End EJ.
+
+Example ex_rejected_greeting :   (* "EHLO a" rejected with 550, then AUTH PLAIN: 503, nobody asked *)
+  let nv := {| nv_vf := fun k _ => match k with KEhlo => VCode 550 | _ => VKeep end;
+               nv_queued := fun _ => VKeep; nv_qf := fun _ => QOk; nv_hs := true; nv_stls := VKeep |} in
+  let tr := t_session ex_mechs 40 (ex_cfg true) nv {| w_plain := []; w_tls := [W_EHLO_AUTH] |} in
+  map (fun x => to_replies (snd (fst x))) tr = [[220]; [550]; [503]; []] /\
+  forallb (fun x => match ev_of x with [TAuth _ _ _] => false | _ => true end) tr = true.
+Proof. split; vm_compute; reflexivity. Qed.
